@@ -209,6 +209,13 @@ def oracle(op, out):
                     f"abort frame {ABORT_TIMEOUT}")
         if first.startswith("ok") and not (p["dir"] == "up" and role == "seg"):
             return f"{tag} a lost response went unnoticed"
+    # one transfer asks for its end once: a stream that failed must not come back with another end request when
+    # it is finalised or closed again (spans[i] = the client frames of transfer i, incl. what its clean-up sent)
+    for i, span in enumerate(spans):
+        ends = [f for f in span.split(",") if len(f) == 16 and int(f[:2], 16) & 0xE3 == 0xC1]
+        if len(ends) > 1:
+            return (f"{tag} end-request: the client put {len(ends)} end-block-download requests on the bus for "
+                    f"transfer {i} (a failed close() ran again)")
     for n, (t, r) in enumerate(zip(p["follow"], results[1:]), 1):
         k = t.split("=")
         if k[0] in ("d", "bd"):
